@@ -267,6 +267,134 @@ func genInvocation(r *core.RNG, cmd string) invocation {
 	return iv
 }
 
+var optDefaults = map[string]string{"-t": ",", "-d": "\t", "-s": "both", "-k": "misc_feature"}
+
+// neighbourOf prefers a value that shares its first byte with cur (a key that
+// is derived from part of a value cannot tell such neighbours apart).
+func neighbourOf(r *core.RNG, pool []string, cur string) string {
+	if cur != "" && r.Chance(1, 2) {
+		var nb []string
+		for _, v := range pool {
+			if v != cur && v[0] == cur[0] {
+				nb = append(nb, v)
+			}
+		}
+		if len(nb) > 0 {
+			return pickS(r, nb)
+		}
+	}
+	return pickS(r, pool)
+}
+
+// mutateOne changes exactly one argument of an invocation, choosing uniformly
+// among the kinds of change the command allows.
+func mutateOne(r *core.RNG, a invocation) (invocation, string) {
+	for try := 0; try < 30; try++ {
+		v := a.clone()
+		var kinds []string
+		if len(posPools[a.Cmd]) > 0 && len(v.Pos) == len(posPools[a.Cmd]) {
+			kinds = append(kinds, "pos", "pos")
+		}
+		if len(optPools[a.Cmd]) > 0 {
+			kinds = append(kinds, "optval", "addopt")
+		}
+		if len(switchPools[a.Cmd]) > 0 {
+			kinds = append(kinds, "switch")
+		}
+		if !tableOut[a.Cmd] {
+			kinds = append(kinds, "format")
+		}
+		kinds = append(kinds, "output")
+		if (a.Cmd == "extract" || a.Cmd == "select") && len(v.Pos) > 0 {
+			kinds = append(kinds, "extra")
+		}
+		switch pickS(r, kinds) {
+		case "pos":
+			pools := posPools[a.Cmd]
+			i := r.Intn(len(pools))
+			nv := neighbourOf(r, pools[i], v.Pos[i])
+			if nv != v.Pos[i] {
+				v.Pos[i] = nv
+				return v, "one-positional"
+			}
+		case "extra":
+			pool := locators
+			if a.Cmd == "select" {
+				pool = selectors
+			}
+			i := r.Intn(len(v.Pos))
+			nv := neighbourOf(r, pool, v.Pos[i])
+			if nv != v.Pos[i] {
+				v.Pos[i] = nv
+				return v, "one-positional"
+			}
+		case "optval":
+			for i, o := range v.Opts {
+				if pool, ok := optPools[a.Cmd][o[0]]; ok && len(o) > 1 {
+					j := 1 + r.Intn(len(o)-1)
+					nv := neighbourOf(r, pool, o[j])
+					if nv != o[j] {
+						v.Opts[i][j] = nv
+						return v, "one-option-value"
+					}
+				}
+			}
+		case "addopt":
+			var flags []string
+			for f := range optPools[a.Cmd] {
+				have := false
+				for _, o := range v.Opts {
+					if o[0] == f {
+						have = true
+					}
+				}
+				if !have {
+					flags = append(flags, f)
+				}
+			}
+			if len(flags) > 0 {
+				sortStrings(flags)
+				f := pickS(r, flags)
+				v.Opts = append(v.Opts, []string{f, neighbourOf(r, optPools[a.Cmd][f], optDefaults[f])})
+				return v, "add-option"
+			}
+		case "switch":
+			f := pickS(r, switchPools[a.Cmd])
+			for i, o := range v.Opts {
+				if len(o) == 1 && o[0] == f {
+					v.Opts = append(v.Opts[:i], v.Opts[i+1:]...)
+					return v, "switch-off"
+				}
+			}
+			v.Opts = append(v.Opts, []string{f})
+			return v, "switch-on"
+		case "format":
+			f := pickS(r, append(formats, ""))
+			if f != a.Fmt {
+				v.Fmt = f
+				return v, "format"
+			}
+		case "output":
+			o := pickS(r, []string{"", "/u/out.gb", "/u/out.fasta", "/u/out2.gb"})
+			if o != a.Out {
+				v.Out = o
+				return v, "output"
+			}
+		}
+	}
+	return a, "same"
+}
+
+func sortStrings(s []string) {
+	for i := 1; i < len(s); i++ {
+		for j := i; j > 0 && s[j] < s[j-1]; j-- {
+			s[j], s[j-1] = s[j-1], s[j]
+		}
+	}
+}
+
+var goodInputs = []string{"/u/part.gb", "/u/pbat.gb", "/u/two.gb", "/u/three.gb", "/u/ecoli.gb", "/u/phix.gb", "/u/part.fasta", "/u/two.fasta", "/u/part.gb", "/u/pbat.gb"}
+
 // mutate returns a variant of the anchor that differs in exactly one aspect.
 func mutateInvocation(r *core.RNG, a invocation) (invocation, string) {
 	for try := 0; try < 20; try++ {
@@ -410,6 +538,21 @@ func genHistory(r *core.RNG, tier string) *cliScenario {
 	add := func(rs *runStep) {
 		addFiles(sc, rs)
 		sc.Steps = append(sc.Steps, cliStep{Run: rs})
+	}
+	if r.Chance(9, 20) {
+		// pair shape: a run that succeeds, then the same run with exactly one argument changed
+		anchor.Input = pickS(r, goodInputs)
+		add(anchor.step(r))
+		v, _ := mutateOne(r, anchor)
+		add(v.step(r))
+		switch r.Intn(4) {
+		case 0:
+			add(anchor.step(r))
+		case 1:
+			w, _ := mutateOne(r, v)
+			add(w.step(r))
+		}
+		return sc
 	}
 	add(anchor.step(r))
 	for len(sc.Steps) < n+countNonRun(sc) {
@@ -594,7 +737,7 @@ func (c14Engine) Runs(tier string) int {
 	if tier == "thorough" {
 		return 120000
 	}
-	return 4000
+	return 6000
 }
 
 func wrapC14(c *cliScenario) json.RawMessage {
